@@ -7,6 +7,9 @@
 # current working tree. GOSUMDB must not be "off" (it breaks the offline toolchain switch).
 set -e
 cd "$(dirname "$0")"
+# everything (harness sources, bin/, evidence/, replay/) is relative to this directory, so that a
+# snapshot of /verif (vp run) is self-contained and never writes into /verif itself
+export VERIF_DIR="${VERIF_DIR:-$(pwd)}"
 unset GOSUMDB GOTOOLCHAIN
 export GOFLAGS=-mod=mod GOPROXY=off
 if [ "$1" = "baseline-off" ]; then
